@@ -24,6 +24,19 @@ add("C02", "harness", "exploration", "property-based testing: generated inputs x
     "Differential against the reference model M_fq (four-line groups, validation order start byte / separator byte / lengths, truncation and blank-tail rules) over grammar-built documents with a defect of each kind at a generated record index, truncation at every byte, mutations and soups x capacities aligned to record ends x policies x chunk scripts x three consumption modes. Exhaustive for all strings up to length 8 over {@,+,LF,CR,A} x capacities 3..12 in the thorough tier. The comparison stops at groups whose sequence and quality line use different terminators (outside the claimed domain).",
     MODEL_NOTE)
 
+add("C03", "harness", "exploration", "property-based testing: differential between two generated configurations of the same code (proptest), no reference model; libFuzzer variant in the thorough tier",
+    "Each case reads one generated input twice under two generated configurations (capacity x permissive policy x chunking x Interrupted pattern) in one of three modes and requires identical flat traces: records, errors with all fields, every reported position, the End point. Sampling of input x configuration pairs; capacities are aimed at record boundaries so that alignments differ on purpose.",
+    "trusted: the scripted source and recording policy; only policies that permit the needed size are generated; bounded sizes")
+add("C04", "harness", "exploration", "stateful property-based testing: generated call histories interpreted against a cursor model over an independent reference model (proptest)",
+    "Generated histories of next / records() / read_record_set / read_record_set_exact / seek / into_records on one reader with three reusable record-set slots, checked after every step against the strict cursor model (exactly once, in order, equal content, batch-size rules, untouched slots unchanged, error only after all preceding records).",
+    MODEL_NOTE)
+add("C05", "harness", "exploration", "stateful property-based testing: seek-heavy generated histories against reference coordinates (proptest)",
+    "Seek-heavy histories (to every record, from every reader state, in-buffer and real seeks, positions from the model and positions reported by the reader) checked against the capacity-free coordinates of the reference model; position after next(), after set reads, and the stream after each seek.",
+    MODEL_NOTE)
+add("C06", "harness", "exploration", "property-based testing with fault injection: generated histories, refusing policies and injected source errors against a validity predicate (proptest) + libFuzzer target with the same predicate (thorough)",
+    "Widest domain: soups, mutated and out-of-domain inputs, refusing policies, one-byte chunks, injected read/seek errors (one-shot and sticky), calls after errors and after end, set iteration after failed fills. Validity predicate: no panic, no livelock (deterministic step budget), every record handed out or held by a set is a record of the input, in file order.",
+    "trusted: the lenient record list of the model (most permissive), the step budget as livelock detector; a livelock that never touches the source is only caught by the outer watchdog (exit 2)")
+
 NOT_YET = "check under construction (framework being built); will be claimed once its command exists"
 
 def main():
